@@ -431,7 +431,7 @@ def agree_model(rng, quick):
     """a model inside MJX's feature set on which agreement with C is expected: analytic colliders (plane, sphere, capsule),
     solver tolerance tightened on both sides.  The confirmed findings (each exercised by its own directed case in
     run_directed) are kept out of this generic comparison so that it keeps its sensitivity to everything else:
-    implicitfast with free joints or force-limited actuators, elliptic cone without frictional contacts, connect/weld equalities, bodies attached to
+    implicitfast with free joints, force-limited or muscle actuators, touch sensors without colliding geoms, elliptic cone without frictional contacts, connect/weld equalities, bodies attached to
     a mocap body, colliding geoms on mocap bodies, models without degrees of freedom."""
     for _ in range(20):
         contacts = rng.choice((0.0, 1.0, 1.0))
@@ -465,7 +465,21 @@ def agree_model(rng, quick):
             mdl.lines += ["set %s contype 0" % w[1], "set %s conaffinity 0" % w[1]]
     if nmocap != mdl.nmocap:
         mdl.nmocap = nmocap
+    # capsules at least 0.3 long: math.closest_segment_point divides by |segment|^2 + 1e-6, a relative error of 1e-6/|segment|^2 that reaches
+    # 1e-4 for the shortest capsules of the generator (observed 8.8e-4 on qacc); with this floor it stays below 1.2e-5
+    for g in mdl.geoms:
+        if g["type"] == "capsule" and g["size"][1] < 0.15:
+            new_len = 0.15 + 0.1 * rng.random()
+            mdl.lines = [("set %d size %r %r" % (g["handle"], g["size"][0], new_len)) if l.split()[:3] == ["set", str(g["handle"]), "size"] else l
+                         for l in mdl.lines]
+    # a touch sensor in a model without any colliding geom makes sensor_acc raise (finding, directed case 10)
+    if not contacts:
+        th = [l.split()[1] for l in mdl.lines if l.split()[0] == "set" and l.split()[2:] == ["type", str(E("mjSENS_TOUCH"))] and ("sensor " + l.split()[1]) in mdl.lines]
+        if th:
+            mdl.lines = drop_handles(mdl.lines, th)
     fix = {}
+    if mdl.options["integrator"] == "implicitfast" and any(l.split()[2:] == ["dyntype", str(E("mjDYN_MUSCLE"))] for l in mdl.lines):
+        fix["integrator"] = E("mjINT_" + rng.choice(("EULER", "RK4")))
     if mdl.options["integrator"] == "implicitfast" and any(l.split()[2:3] == ["forcelimited"] for l in mdl.lines):
         fix["integrator"] = E("mjINT_" + rng.choice(("EULER", "RK4")))
     if mdl.options["integrator"] == "implicitfast" and has_free:
@@ -622,7 +636,9 @@ def run_gate(ctx, pair, orc, quick):
             orc.fail("c43:gate:rejects-documented:" + label.split("=")[0], "%s is documented as supported but put_model/make_data answered: %s" % (label, ho[:200]), rp)
         elif not doc_ok and not raised_ni:
             orc.fail("c43:gate:accepts-undocumented:" + label.split("=")[0], "%s is documented as unsupported but MJX did not raise NotImplementedError: %s" % (label, ho[:200]), rp)
-        elif doc_ok and accepted and not quick:
+        elif doc_ok and accepted and not quick and not label.startswith("collision="):
+            # (collision cases: acceptance only; the ellipsoid / cylinder colliders of MJX are SDF-based approximations, the two deeply
+            # overlapping bodies of these cases are no meaningful numerical comparison)
             # accepted: must also reproduce C on the default state
             pair.set_state({})
             if pair.c.ask("forward 0") == "ok" and pair.h.ask("forward", timeout=900) == "ok":
@@ -786,6 +802,45 @@ def run_directed(ctx, pair, orc):
             orc.fail("c43:implicitfast-ignores-force-clamp",
                      "implicitfast, a velocity servo (kv = 5) saturated at forcerange +-0.5 on a hinge moving at 2 rad/s: after one step qvel = %s in C, "
                      "%s in MJX (relative %.3g): mjd_actuator_vel skips actuators whose force is clamped, derivative.deriv_smooth_vel does not" % (c, m, d),
+                     {"model_description": L, "state": st, "qvel_c": c, "qvel_mjx": m})
+    # 10. a touch sensor in a model that has constraint rows but no potential contact
+    L = ["body 2 0", "joint 3 2", "set 3 axis 0 1 0", "set 3 limited 1", "set 3 range -10 10", "geom 4 2", "set 4 size 0.1", "set 4 pos 0.3 0 0",
+         "set 4 contype 0", "set 4 conaffinity 0", "site 5 2", "name 5 s", "sensor 6", "set 6 type %d" % E("mjSENS_TOUCH"),
+         "set 6 objtype %d" % E("mjOBJ_SITE"), "set 6 objname s"]
+    co, ho = pair.load(L)
+    orc.n += 1
+    if pair.c_ok and ho.startswith("ok"):
+        pair.set_state({})
+        rc_ = pair.c.ask("forward 0")
+        r = pair.h.ask("forward", timeout=900)
+        out.append({"case": "touch sensor, joint limit, no colliding geom", "c_forward": rc_, "mjx_forward": r})
+        if r != "ok":
+            orc.fail("c43:touch-sensor-without-contacts-valueerror",
+                     "put_model accepts a model with a touch sensor, a joint limit and no colliding geom, but mjx.forward raises ValueError "
+                     "('Need at least one array to concatenate': sensor.sensor_acc concatenates the contact forces of an empty set of condims); "
+                     "the C engine runs it", {"model_description": L})
+        else:
+            pair.compare(["sensordata", "qacc"], "directed-touch", {"model_description": L})
+    # 11. implicitfast with a muscle: the C derivative has the velocity derivative of the muscle gain (mjd_muscleGain_vel), MJX's has not
+    prm = "0.75 1.05 -1 200 0.5 1.6 1.5 1.3 1.2"
+    L = ["option integrator %d" % E("mjINT_IMPLICITFAST"), "option gravity 0 0 0", "body 2 0", "joint 3 2", "name 3 j", "set 3 axis 0 1 0", "geom 4 2",
+         "set 4 size 0.1", "set 4 pos 0.3 0 0", "set 4 contype 0", "set 4 conaffinity 0", "actuator 5", "set 5 trntype %d" % E("mjTRN_JOINT"),
+         "set 5 target j", "set 5 dyntype %d" % E("mjDYN_MUSCLE"), "set 5 gaintype %d" % E("mjGAIN_MUSCLE"), "set 5 biastype %d" % E("mjBIAS_MUSCLE"),
+         "set 5 gainprm " + prm, "set 5 biasprm " + prm, "set 5 dynprm 0.01 0.04 0", "set 5 lengthrange 0.5 1.5"]
+    co, ho = pair.load(L)
+    orc.n += 1
+    if pair.c_ok and ho.startswith("ok"):
+        st = {"qpos": [1.0], "qvel": [-1.5], "act": [0.8], "ctrl": [0.8]}
+        pair.set_state(st)
+        pair.c.ask("step 0 1")
+        pair.h.ask("step 1", timeout=900)
+        c, m = pair.cnum("qvel"), json.loads(pair.h.ask("out qvel"))["qvel"]
+        d = reldev(c, m)
+        out.append({"case": "implicitfast, muscle actuator", "qvel_c": c, "qvel_mjx": m, "relative_deviation": d})
+        if not d <= TOL_PIPE:
+            orc.fail("c43:implicitfast-muscle-derivative-missing",
+                     "implicitfast with an activated muscle on a moving hinge: after one step qvel = %s in C, %s in MJX (relative %.3g): "
+                     "mjd_actuator_vel includes the velocity derivative of the muscle gain, derivative.deriv_smooth_vel only the affine terms" % (c, m, d),
                      {"model_description": L, "state": st, "qvel_c": c, "qvel_mjx": m})
     # 7. a model without any degree of freedom
     L = ["geom 1 0", "set 1 type 0", "set 1 size 5 5 0.1", "body 2 0", "set 2 pos 0 0 1", "geom 3 2", "set 3 size 0.1"]
